@@ -15,9 +15,9 @@ def run(ctx):
     nx = len(hs)
     # long random walks of the model over sizes around page multiples
     sizes = [1, 17, 4082, 4083, 4084, 4085, 4087, 8178, 8179, 8180, 12288] if q else \
-            [1, 2, 17, 100, 4070, 4082, 4083, 4084, 4085, 4086, 4087, 4088, 8178, 8179, 8180, 8181, 8183, 12275, 12288, 65536]
+            [1, 17, 100, 4082, 4083, 4084, 4085, 4087, 8179, 8180, 8183, 12288, 65536]
     for i, S in enumerate(sizes):
-        hs += rings.gen(ctx, S, False, i % 2, 40 if q else 80, "simulate", 150 if q else 3000, False, "s%d" % S, extra_lens=[S + 1, S + 9])
+        hs += rings.gen(ctx, S, False, i % 2, 40 if q else 80, "simulate", 150 if q else 1200, False, "s%d" % S, extra_lens=[S + 1, S + 9])
     for h in hs[nx:]:
         h.extend(rings.drain(6))           # read everything back at the end
     ctx.sample({"history": rings.to_lines(hs[0])})
